@@ -483,10 +483,12 @@ class JaqalParser(Parser):
         if token is not None:
             line = token.lineno
             col = self.compute_col(token.index)
+            msg = f"At token `{token.value}`"
         else:
             line = "EOF"
             col = 0
-        raise JaqalParseError(self._source, line, col, f"At token `{token.value}`")
+            msg = "Unexpected end of input"
+        raise JaqalParseError(self._source, line, col, msg)
 
     def raise_error(self, message):
         """Common method for when errors come up not in the grammar but in the
